@@ -233,6 +233,26 @@ func checkP2(c *Ctx, pr *prioRoles) {
 			}
 		}
 	}
+	// v1: ... and nothing writes into the shares afterwards: the map the divider returned is only
+	// read (a round division made into it - safeDivide(..., dsc.strategic) - overwrites the shares
+	// every later top-up is measured against)
+	{
+		ai := p.alias()
+		k := 0
+		for _, fn := range pr.rt.Funcs {
+			for _, w := range ai.contentWritesIn(fn) {
+				for _, root := range ai.Roots(w.Target) {
+					if root.Kind == "fieldload" && strings.HasSuffix(root.Path, ".strategic") {
+						k++
+						c.R.Fail("P2", fmt.Sprintf("%s#strategic-content.%d", p.FnKey(fn), k), p.InstrPos(w.In), "the strategic shares are written in place ("+w.How+"): they no longer are the division of HandlersQuantity among the registered priorities, and every later top-up is measured against the overwritten values")
+					}
+				}
+			}
+		}
+		if k == 0 {
+			c.R.Pass("P2", "v1:priority.Discipline#strategic-content", "-", "the shares are only replaced as a whole, never written in place")
+		}
+	}
 	// every function that changes the registered set refreshes strategic before it returns
 	changes := map[*ssa.Function]bool{}
 	for _, fn := range p.Funcs() {
@@ -319,6 +339,7 @@ func runC06(c *Ctx) {
 	r.Doc("N6", "the base-path candidates (uncrowded) are exactly the registered priorities with actual < strategic", 2)
 	r.Doc("N7", "the 'allotment filled' predicate answers true exactly when every listed priority has a non-zero allotment", 2)
 	r.Doc("N10", "(= E2 registration) a newly registered channel starts not drained, so it is read", 1)
+	r.Doc("N14", "a spending phase visits the list of registered priorities", 2)
 	r.Doc("N13", "every division into the allotment map starts from the emptied map (nearest event before it is the reset)", 3)
 	r.Doc("N12", "the may-proceed answer of a dividing function is the for-all over the list it just divided", 3)
 	r.Doc("N9", "(= P4) the pass over an input is left early only for lack of data, closure or stop", 4)
@@ -342,6 +363,7 @@ func runC06(c *Ctx) {
 		checkN78(c, pr)
 		checkN12(c, pr, "N12")
 		checkN13(c, pr, "N13")
+		checkN14(c, pr, "N14")
 		checkN3(c, pr)
 		subp := &Ctx{V1: c.V1, V2: c.V2, Tier: c.Tier, R: NewReport("tmp", c.Tier)}
 		checkB5(subp, pr, true)
@@ -1012,8 +1034,8 @@ func runC17(c *Ctx) {
 	checkP2(sub, pr)
 	checkP2c(sub, pr)
 	for _, o := range sub.R.Obls {
-		if strings.Contains(o.Key, "v2:") {
-			continue
+		if strings.Contains(o.Key, "v2:") || strings.Contains(o.Key, "#strategic-content") {
+			continue // (shares overwritten by a round division: C05's business, not a matter of adding / removing inputs)
 		}
 		r.Check(o.OK, "R5", o.Key, o.Site, o.Detail, o.Detail)
 	}
@@ -1305,6 +1327,24 @@ func checkN13(c *Ctx, pr *prioRoles, rule string) {
 			// rebuilds before it, the nearest is a rebuild (a second division over the list of the
 			// first one hands the remainder to the wrong candidates)
 			if cal := p.Callee(d.in); cal != nil && isCheckedDivision(cal) && len(d.in.Call.Args) == 4 {
+				// a candidate list was rebuilt right before this division: it is the list to divide among
+				{
+					var evsDF []ev
+					for _, e := range evs {
+						if e.kind == "filter" || e.kind == "division" {
+							evsDF = append(evsDF, e)
+						}
+					}
+					if lf := nearest(evsDF, d); lf != nil && lf.kind == "filter" {
+						if _, path, okp := p.Sym(d.in.Call.Args[1]).FieldPath(); okp {
+							lst := path[len(path)-1]
+							if fcal := p.Callee(lf.in); fcal != nil && (lst == "priorities" || !p.mayWriteField(fcal, lst)) {
+								nfc++
+								c.R.Fail(rule, fmt.Sprintf("%s#candidates-used.%d", p.FnKey(fn), nfc), p.InstrPos(d.in), "the candidate list was rebuilt at "+p.InstrPos(lf.in)+" for this division, but the division is made among "+p.Sym(d.in.Call.Args[1]).String()+": priorities that are not candidates take part, and the hypothetical shares the second phase is based on are those of another set")
+							}
+						}
+					}
+				}
 				if _, path, okp := p.Sym(d.in.Call.Args[1]).FieldPath(); okp && (path[len(path)-1] == "useful" || path[len(path)-1] == "uncrowded") {
 					var evsDF []ev
 					for _, e := range evs {
@@ -1332,6 +1372,86 @@ func checkN13(c *Ctx, pr *prioRoles, rule string) {
 	}
 	if n == 0 {
 		c.R.Fail(rule, p.Name+":priority#fresh-allotment", "-", "UNRESOLVED-ANCHOR: no division into the allotment map found")
+	}
+}
+
+// checkN14: a spending phase passes over every registered priority, in the order of the registered
+// list: the loop whose body reaches the sending function ranges over that list (over a candidate
+// list of some earlier round, inputs outside it are not read in this phase although they hold an
+// allotment).
+func checkN14(c *Ctx, pr *prioRoles, rule string) {
+	p := pr.p
+	n := 0
+	for _, fn := range pr.rt.Funcs {
+		if fn == pr.sendFn || p.Reach(fn)[pr.sendFn] == false {
+			continue
+		}
+		for _, comp := range sccs(fn.Blocks, blockSet(fn.Blocks)) {
+			set := blockSet(comp)
+			var rng *ssa.Range
+			var idxBase *Sym
+			callsSend := false
+			for _, b := range comp {
+				for _, in := range b.Instrs {
+					switch x := in.(type) {
+					case *ssa.Next:
+						if r, ok := x.Iter.(*ssa.Range); ok {
+							rng = r
+						}
+					case *ssa.Call:
+						var cals []*ssa.Function
+						if cal := p.Callee(x); cal != nil {
+							cals = append(cals, cal)
+						} else {
+							for _, t := range p.funcValueTargets(nil, x) { // (transfer := dsc.iou; ... transfer(priority))
+								cals = append(cals, t.Fn)
+							}
+						}
+						reaches := false
+						for _, cal := range cals {
+							if p.IsProduct(cal) && (cal == pr.sendFn || p.Reach(cal)[pr.sendFn]) {
+								reaches = true
+							}
+						}
+						if reaches {
+							callsSend = true
+							// the priority handed on is the element visited
+							for _, a := range x.Call.Args {
+								if base, okr := rangeElem(p.Sym(a)); okr {
+									idxBase = base
+								}
+							}
+						}
+					}
+				}
+			}
+			_ = set
+			if !callsSend || (rng == nil && idxBase == nil) {
+				continue
+			}
+			var list *Sym
+			if idxBase != nil {
+				list = idxBase
+			} else {
+				list = p.Sym(rng.X)
+			}
+			if list.V != nil {
+				lt := list.V.Type().Underlying()
+				if pt, isPtr := lt.(*types.Pointer); isPtr {
+					lt = pt.Elem().Underlying()
+				}
+				if _, isSlice := lt.(*types.Slice); !isSlice {
+					continue // a loop over something else (the spending loop of one input)
+				}
+			}
+			n++
+			_, path, okp := p.upParam(list, 0).FieldPath()
+			c.R.Check(okp && path[len(path)-1] == "priorities", rule, fmt.Sprintf("%s#pass-list.%d", p.FnKey(fn), n), p.Pos(fn.Pos()), "the spending phase visits the registered priorities",
+				"the spending phase visits "+list.String()+", not the list of registered priorities: inputs of the priorities outside that list are not read in this phase although they were allotted handlers")
+		}
+	}
+	if n == 0 {
+		c.R.Fail(rule, p.Name+":priority#pass-list", "-", "UNRESOLVED-ANCHOR: no loop over a list of priorities reaches the sending function")
 	}
 }
 
